@@ -711,7 +711,7 @@ def same(cx, r1, r2, law, cls, desc):
                 f'although both denote {short(x1)}')
 
 
-def laws(cx, states, tier, repeat_ns=None):
+def laws(cx, states, tier):
     ad, part, G, ref = cx.ad, cx.part, cx.ad.G, cx.ad.ref
     e = ref.identity
     xs = ad.law_elements()
@@ -916,7 +916,7 @@ def run_small(part, ad, job, tier, state_cap=60000):
         return
     if part.notes.get('hung_groups'):
         return           # a real call did not return earlier in this job: do not burn one budget per group
-    states = guarded(cx, 40 if tier == 'quick' else 120, explore, cx, state_cap)
+    states = guarded(cx, 20 if tier == 'quick' else 120, explore, cx, state_cap)
     if states is None:
         part.note('hung_groups', [ad.name])
         return
@@ -1129,6 +1129,14 @@ def job_builtin(part, job, fg):
     guarded_laws(cx, states, tier)
     if cx.failed:
         return
+    guarded(cx, 200 if tier == 'quick' else 600, builtin_pairs_and_repeat, cx, states, tier)
+    if job['coords'] == 'projective' and job['curve'] == 'secp256k1':
+        part.sample(dict(group=ad.name, states=len(states), alphabet='kG for |k| <= 4 and ord-1, ord, ord+1'))
+
+
+def builtin_pairs_and_repeat(cx, states, tier):
+    ad, part = cx.ad, cx.part
+    G, ref, gen, n = ad.G, ad.ref, ad.gen, ad.n
     # all pairs of (up to 3) representations of each alphabet element: operation vs reference
     reps = collections.defaultdict(list)
     for raw, (a, x) in states.items():
@@ -1151,8 +1159,6 @@ def job_builtin(part, job, fg):
              (G.inversion(G.operation(G.operation2(G.generator), G.generator)), ad.mult[-3])]
     ns = boundary_exponents(n, tier)
     big_repeat(cx, bases, ns)
-    if job['coords'] == 'projective' and job['curve'] == 'secp256k1':
-        part.sample(dict(group=ad.name, states=len(states), repeat_exponents=len(ns), bases=len(bases)))
 
 
 def job_cross(part, job, fg):
@@ -1192,7 +1198,13 @@ def job_cross(part, job, fg):
         if a == G.identity:
             return 'identity'
         return v[:2]
-    tabs = [derive(G) for G in Gs]
+    try:
+        with Deadline(150):
+            tabs = [derive(G) for G in Gs]
+    except (Exception, CpuTimeout) as e:
+        key = f'C27:{curve}:cross-coordinates:raises'
+        part.violation(key, f'{curve}: deriving the multiples of G raised {type(e).__name__}: {e}', dict(job=job, key=key))
+        return
     for name in tabs[0]:
         pts = [affine_of(G, t[name]) for G, t in zip(Gs, tabs)]
         part.case(key=None, nontrivial=True)
@@ -1334,8 +1346,9 @@ def job_kummer(part, job, fg):
         guarded_laws(cx, states, tier)
         if cx.failed:
             continue
-        big_repeat(cx, [(G.generator, gen), (G.operation2(G.generator), mult[2]), (G.identity, ref.identity)],
-                   boundary_exponents(n, tier))
+        guarded(cx, 200 if tier == 'quick' else 600, big_repeat, cx,
+                [(G.generator, gen), (G.operation2(G.generator), mult[2]), (G.identity, ref.identity)],
+                boundary_exponents(n, tier))
 
 
 # ------------------------------------------------------------------------------ class-group constructor / reduction
@@ -1387,6 +1400,10 @@ def message_alphabet(mmax, dense):
     return sorted(ms)
 
 
+def report(part, key, what, job):
+    part.violation(key, what, dict(job=job, key=key))
+
+
 def encdec(part, job, key, name, G, messages, valid, size_class=None):
     """decode(encode(m)) == m; encode may fail with the documented ValueError."""
     failed = 0
@@ -1396,8 +1413,8 @@ def encdec(part, job, key, name, G, messages, valid, size_class=None):
             with Deadline(10):
                 failed += encdec_one(part, job, key, name, G, m, valid, size_class)
         except CpuTimeout as e:
-            part.violation(f'C27:{key}:encode-decode:hangs', f'{name}: encode/decode/operations on the encoding of {m}: {e}',
-                           dict(job=job, only=name))
+            report(part, f'C27:{key}:encode-decode:hangs', f'{name}: encode/decode/operations on the encoding of {m}: {e}',
+                           job)
             break
     part.note('encode_failed_documented', failed)
     part.note('messages', len(messages))
@@ -1416,13 +1433,13 @@ def encdec_one(part, job, key, name, G, m, valid, size_class):
         except Exception as e:
             enc = e
         if isinstance(enc, Exception) or enc is None:
-            part.violation(f'C27:{key}:encode:raises', f'{name}: encode({m}) gives {enc!r}', dict(job=job, only=name))
+            report(part, f'C27:{key}:encode:raises', f'{name}: encode({m}) gives {enc!r}', job)
             return 0
         M, Z = enc
         why = valid(M) or valid(Z)
         if why:
-            part.violation(f'C27:{key}:encode:not-an-element', f'{name}: encode({m}) = ({short(M.value, 150)}, '
-                           f'{short(Z.value, 150)}): {why}', dict(job=job, only=name))
+            report(part, f'C27:{key}:encode:not-an-element', f'{name}: encode({m}) = ({short(M.value, 150)}, '
+                           f'{short(Z.value, 150)}): {why}', job)
         else:
             # the encoded elements must be usable as group elements: inversion, operation, operation2, hashing
             # must not raise on them (the laws themselves are checked on all elements by the search jobs)
@@ -1432,17 +1449,19 @@ def encdec_one(part, job, key, name, G, m, valid, size_class):
             except Exception as e:
                 why = f'{type(e).__name__}: {e}'
             if why:
-                part.violation(f'C27:{key}:encode:unusable-element', f'{name}: encode({m}) = ({short(M.value, 150)}, '
+                report(part, f'C27:{key}:encode:unusable-element', f'{name}: encode({m}) = ({short(M.value, 150)}, '
                                f'{short(Z.value, 150)}): inversion/operation/operation2/hash of the encoded elements '
-                               f'raises {why}', dict(job=job, only=name))
+                               f'raises {why}', job)
         try:
             got = G.decode(M, Z)
         except Exception as e:
             got = f'{type(e).__name__}: {e}'
         part.outcomes.add(got == m)
+        if m == 42 and not part.samples:
+            part.sample(dict(group=name, message=m, encoded=short(M.value, 100), Z=short(Z.value, 60), decoded=short(got, 40)))
         if got != m or isinstance(got, bool) or not isinstance(got, int):
-            part.violation(f'C27:{key}:decode' + (f':{cls}' if cls else ''),
-                           f'{name}: decode(encode({m})) = {got!r}', dict(job=job, only=name))
+            report(part, f'C27:{key}:decode' + (f':{cls}' if cls else ''),
+                           f'{name}: decode(encode({m})) = {got!r}', job)
     return 0
 
 
@@ -1582,10 +1601,34 @@ def jobs(tier, seed):
     return js
 
 
+TYPE_CONSTRUCTORS = ('SymmetricGroup', 'QuadraticResidues', '_QuadraticResidues', 'SchnorrGroup', '_SchnorrGroup',
+                     'EllipticCurve', '_EllipticCurve', 'HyperellipticCurve', '_HyperellipticCurve', 'ClassGroup',
+                     '_ClassGroup')
+
+
 def run_job(job):
-    from mpyc import fingroups as fg
+    import traceback
     part = Part()
     part.state_keys = set()
+    try:
+        dispatch(part, job)
+    except Exception as e:
+        # a group *type* constructor of fingroups failing (e.g. its own order assertion) is a finding, not a harness error
+        frames = [fr for fr in traceback.extract_tb(e.__traceback__) if fr.filename.endswith('mpyc/fingroups.py')]
+        if not frames or frames[0].name not in TYPE_CONSTRUCTORS:
+            raise
+        key = f'C27:{frames[0].name.lstrip("_")}:group-construction:raises'
+        part.violation(key, f'{frames[0].name}() raised {type(e).__name__}: {e} at fingroups.py:{frames[-1].lineno} '
+                       f'({frames[-1].line}) in job {short(job, 200)}', dict(job=job, key=key))
+    # several jobs can report the same key; the parent keeps the report of the lowest job index (determinism)
+    part.note('viol_candidates', [[v['key'], job.get('index', 0), v['what'], v['detail']] for v in part.violations])
+    part.note('sample_candidates', [[(job.get('index', 0), i), smp, job['kind']] for i, smp in enumerate(part.samples)])
+    part.samples = []
+    return part
+
+
+def dispatch(part, job):
+    from mpyc import fingroups as fg
     kind, tier = job['kind'], job['tier']
     only = job.get('only')
     if kind == 'sym':
@@ -1614,9 +1657,6 @@ def run_job(job):
         job_kummer(part, job, fg)
     elif kind == 'encdec':
         job_encdec(part, job, fg)
-    # several jobs can report the same key; the parent keeps the report of the lowest job index (determinism)
-    part.note('viol_candidates', [[v['key'], job.get('index', 0), v['what'], v['detail']] for v in part.violations])
-    return part
 
 
 def coverage_extra(tier, seed, total):
@@ -1627,6 +1667,17 @@ def coverage_extra(tier, seed, total):
     for v in total.violations:
         if v['key'] in best:
             _, v['what'], v['detail'] = best[v['key']]
+    # evidence must not depend on the completion order of the jobs
+    cands = sorted(total.notes.pop('sample_candidates', []), key=lambda c: c[0])
+    chosen = []
+    for kind in ('builtin', 'W', 'cl', 'hc', 'sym', 'encdec'):      # one written-out case per kind of job
+        chosen += [c[1] for c in cands if c[2] == kind][:1]
+    total.samples = chosen
+    for k, v in list(total.notes.items()):
+        if isinstance(v, dict):
+            total.notes[k] = dict(sorted(v.items()))
+        elif isinstance(v, list):
+            total.notes[k] = sorted(v, key=repr)
     return None
 
 
@@ -1638,6 +1689,7 @@ def replay(case):
     job.pop('index', None)
     part = run_job(job)
     part.notes.pop('viol_candidates', None)
+    part.notes.pop('sample_candidates', None)
     if case.get('key'):
         part.violations = [v for v in part.violations if v['key'] == case['key']]
     return part
